@@ -88,6 +88,7 @@ type mstream struct {
 	unknown    bool // the statement does not say what state the receiver is in
 	corrupt    string
 	refused    string
+	unknownWhy string
 	otherSince bool // chunks of other keys were delivered since the last accepted chunk
 	rejSince   bool // chunks of this key were rejected since the stream started
 	files      map[string][]byte
@@ -483,6 +484,10 @@ func (w *world) checkPaths(what string, roots []string, index uint64, anyIndex b
 				// ""): nothing leaves the directory; the attempt fails on a POSIX disk
 				w.ctx.Count("probe.name_resolves_to_snapshot_dir", 1)
 				continue
+			}
+			if len(parts) == 0 && o.op == simfs.OpCreate {
+				w.ctx.Violate(Prop, "path-escape", "%s: %s of %q: the announced file name resolves to the snapshot root of the replica itself (last path element \"..\"), one level above the directory of the snapshot being received", what, o.op, o.path)
+				return
 			}
 			if len(parts) != 2 || !isSnapDir(parts[0]) {
 				w.ctx.Violate(Prop, "path-escape", "%s: %s of %q: a file is created or written outside the directory of the snapshot being received (root %s)", what, o.op, o.path, root)
